@@ -100,6 +100,7 @@ PinsBase(it) ==
     [] it.m = "jr" -> [m |-> "jalr", ops |-> <<0, it.a, 0>>]
     [] it.m = "jalr" -> [m |-> "jalr", ops |-> <<1, it.a, 0>>]
     [] it.m = "ret" -> [m |-> "jalr", ops |-> <<0, 1, 0>>]
+    [] it.m = "fence" -> [m |-> "fence", ops |-> <<15, 15>>]
     [] OTHER -> [m |-> "illegal", ops |-> <<>>]
 
 \* the base instruction a literal item stands for (used for eligibility, C20)
